@@ -46,7 +46,29 @@ def _exc_outcome(e, phase):
     return Outcome(kind, exc=e, phase=phase, tb=None)
 
 
+def _host_settings():
+    """VERIF_HOST_DECIMAL=<prec>[,<rounding>]: every library call runs with the calling thread's decimal context set the way a host
+    program might have set it (money code with a small precision). Properties quantify over inputs, not over the host's arithmetic
+    settings: the observations must be the same. The harness's own reference arithmetic runs outside of it."""
+    v = os.environ.get('VERIF_HOST_DECIMAL')
+    if not v:
+        return None
+    import decimal
+    parts = v.split(',')
+    return decimal.Context(prec=int(parts[0]), rounding=getattr(decimal, parts[1]) if len(parts) > 1 else decimal.ROUND_DOWN)
+
+
+_HOST_CTX = _host_settings()
+
+
 def guarded(fn, phase):
+    if _HOST_CTX is not None:
+        import decimal
+        inner = fn
+
+        def fn():
+            with decimal.localcontext(_HOST_CTX):
+                return inner()
     try:
         return Outcome(VALUE, fn())
     except (KeyboardInterrupt, SystemExit):
